@@ -20,6 +20,9 @@ from harness import c06, c07
 
 ID = 'C15'
 T = es.T
+# touches the function, prefix, postfix and infix registries
+FOLLOWUP = '[ min ( 1 , 2 ) , ! true , 1 ++ , 1 + 1 ]'
+FOLLOWUP_VALUE = {'t': 'list', 'v': [{'t': 'num', 'm': '1', 's': 0}, {'t': 'bool', 'v': False}, {'t': 'num', 'm': '2', 's': 0}, {'t': 'num', 'm': '2', 's': 0}]}
 
 
 def templates(tier):
@@ -39,6 +42,8 @@ def templates(tier):
     add('assign', 'x = f1 ( ) ; y = +++ x ; z = g1 ; w = gf ( y )', {'f1': num, 'g1': num}, 4)
     add('list', '[ f1 ( ) , +++ 1 , 2 --- , 3 hi 4 , gf ( ) , g1 ]', {'f1': num, 'g1': num}, 6)
     add('cond', 'b ? +++ f1 ( ) : g1 ---', {'f1': num, 'g1': num}, 2, {'b': sp(['bool'])})
+    add('assign-target-fn', 'g1 = f1 ( ) ; g1', {'f1': num, 'g1': num}, 2)
+    add('assign-compound-target-fn', 'g1 += f1 ( ) ; x = gf ( 1 )', {'f1': num, 'g1': num}, 3)
     return out
 
 
@@ -61,11 +66,10 @@ def lock_states(it, ctx):
 
 def followup(it, ctx):
     out = {}
-    r = api.execute(it, '1 + 1', ctx)
+    r = api.execute(it, FOLLOWUP, ctx)
     out['exec'] = r.kind
     if r.kind == 'ok':
-        v = r.value
-        out['exec_ok'] = v.name == 'Number' and not is_sym(v.f[0].m) and v.f[0].m == 2
+        out['exec_ok'] = render.norm_num(render.value_json(r.value)) == render.norm_num(FOLLOWUP_VALUE)
     g = api.guarded(it, it.call, 'context::Context::get_variable', [Ref(ctx, ()), mkstr('x')])
     out['get'] = g.kind
     out['locks'] = lock_states(it, ctx)
@@ -129,7 +133,7 @@ def scenario(text, witness):
         steps.append({'op': 'ctx_set_func', 'ctx': 'c', 'name': n.encode().hex(), 'handler': handler_spec(n, 'const', witness, v)})
     steps.append({'op': 'execute', 'hex': text.encode().hex(), 'ctx': 'c'})
     steps.append({'op': 'ctx_dump', 'ctx': 'c'})
-    steps.append({'op': 'execute', 'hex': b'1 + 1'.hex(), 'ctx': 'c'})
+    steps.append({'op': 'execute', 'hex': FOLLOWUP.encode().hex(), 'ctx': 'c'})
     steps.append({'op': 'ctx_get', 'ctx': 'c', 'name': b'x'.hex()})
     return steps
 
@@ -188,7 +192,7 @@ def native_disagrees4(obs, ref):
     """obs = [execute, ctx_dump, followup execute, ctx_get]"""
     if c07.native_disagrees(obs[0], obs[1], ref):
         return True
-    if obs[2].get('kind') != 'ok' or render.norm_num(obs[2].get('value')) != {'t': 'num', 'm': '2', 's': 0}:
+    if obs[2].get('kind') != 'ok' or render.norm_num(obs[2].get('value')) != render.norm_num(FOLLOWUP_VALUE):
         return True
     if obs[3].get('kind') != 'ok':
         return True
